@@ -231,6 +231,19 @@ func (e *Engine) evalBinary(st *State, x *ast.BinaryExpr) (Val, error) {
 	}
 	switch x.Op {
 	case token.EQL, token.NEQ:
+		// x == x / x != x on a floating-point (or complex) operand is the NaN test: the
+		// properties assume NaN-free VALUES where they compare values, not that code may
+		// treat the test as constant; it is an uninterpreted predicate of x
+		if a.T.S == b.T.S && a.T.Sort == smt.V && a.Ty != nil {
+			if bt, ok := a.Ty.Underlying().(*types.Basic); ok && bt.Info()&(types.IsFloat|types.IsComplex) != 0 {
+				e.Decls.Fun("flt_isnan", []smt.Sort{smt.V}, smt.Bool)
+				nan := smt.App(smt.Bool, "flt_isnan", a.T)
+				if x.Op == token.EQL {
+					nan = smt.Not(nan)
+				}
+				return Val{nan, ty}, nil
+			}
+		}
 		eq, err := e.goEqual(st, a, b, x.Pos())
 		if err != nil {
 			return Val{}, err
